@@ -38,6 +38,8 @@ impl TelemetrySharedState {
         tokio::spawn(async move {
             let mut vm_meta_data: Option<VmMetaData> = None;
             loop {
+                #[cfg(gpa_verif)]
+                crate::verif_hook::delay_point("actor_telemetry").await;
                 match receiver.recv().await {
                     Some(TelemetryAction::SetVmMetaData {
                         vm_meta_data: meta_data,
